@@ -210,7 +210,7 @@ Touch(g, h, what) ==
   /\ gS[g].exists /\ h \in NodeHs(gS[g])
   /\ LET k == CHOOSE j \in DOMAIN gS[g].nodes : gS[g].nodes[j].h = h IN
      Set(g, [gS[g] EXCEPT !.nodes[k] = CASE what = "tags"   -> [@ EXCEPT !.tags = @ \cup {"touched"}]
-                                         [] what = "extras" -> [@ EXCEPT !.extras = 7]
+                                         [] what = "extras" -> [@ EXCEPT !.extras = IF @ = 0 THEN 7 ELSE @ + 1]   \* first: a nested container is created; later: it is mutated in place
                                          [] what = "ttc"    -> [@ EXCEPT !.ttc = 7]
                                          [] what = "label"  -> [@ EXCEPT !.V = FALSE]],
          [op |-> "Touch", g |-> g, h |-> h, what |-> what, res |-> "ok"])
